@@ -468,7 +468,14 @@ func (s *Service) stopRunnablePipeline(ctx context.Context, rp *runnablePipeline
 		}
 
 		switch {
-		case len(armedSources) == 0:
+		case len(armedSources) == 0 && len(unarmedSources) > 0:
+			// (Only when some worker really failed to arm: if every worker had
+			// already stopped on its own - e.g. all sources exhausted, the run is
+			// ending or parked in the recovery backoff - nothing is "still
+			// running unattended", the stop was accepted (nil is returned) and
+			// its request must keep holding the marker, or recovery restarts a
+			// pipeline the user has just stopped.)
+			//
 			// Nothing armed: every worker's Stop call failed BEFORE setting
 			// w.stop (the only such path is acquireProcessingLock losing to
 			// ctx - see funnel.Worker.Stop). No source was torn down; every
